@@ -11,11 +11,11 @@ export CARGO_TARGET_DIR=$W/target CARGO_NET_OFFLINE=true
 DEMO=$(ls $SRC/demo_*.rs | head -1); DN=$(basename $DEMO .rs)
 mkdir -p $W/tests && cp $DEMO $W/tests/
 cd $W
-without=FAIL; cargo test --offline --test $DN >$W/demo_without.log 2>&1 && without=pass
+without=FAIL; cargo test --offline ${DEMO_FLAGS:-} --test $DN >$W/demo_without.log 2>&1 && without=pass
 git apply $SRC/patch.diff || { echo "patch does not apply"; cd /; git -C /repo worktree remove --force $W; exit 2; }
 suite=FAIL; cargo test --workspace --no-fail-fast --offline --lib >$W/suite.log 2>&1 && cargo test --workspace --no-fail-fast --offline --doc >>$W/suite.log 2>&1 && suite=pass
 npass=$(grep -E "^test result: ok" $W/suite.log | head -1 | sed -E 's/.* ([0-9]+) passed.*/\1/')
-with=pass; cargo test --offline --test $DN >$W/demo_with.log 2>&1 || with=FAIL
+with=pass; cargo test --offline ${DEMO_FLAGS:-} --test $DN >$W/demo_with.log 2>&1 || with=FAIL
 cd /verif
 echo "seed $NAME: existing suite with change=$suite ($npass unit tests), demo with change=$with, demo without change=$without"
 git -C /repo worktree remove --force $W
